@@ -190,7 +190,7 @@ VERUS_UNITS = [
     VU("V-outbuf", ["C05", "C08"], ["OutputBuffer::from_slice_pos_and_max", "OutputBuffer::bytes_left", "OutputBuffer::write_byte", "OutputBuffer::set_position",
                                     "OutputBuffer::write_slice", "InputWrapper::advance", "InputWrapper::bytes_left"]),
     VU("V-def-bits", ["C02", "C10", "C12"], ["OutputBufferOxide::put_bits", "OutputBufferOxide::pad_to_bytes", "OutputBufferOxide::put_bits_no_flush", "OutputBufferOxide::write_bytes",
-                                             "OutputBufferOxide::save", "OutputBufferOxide::load", "OutputBufferOxide::is_byte_aligned"]),
+                                             "OutputBufferOxide::save", "OutputBufferOxide::load", "OutputBufferOxide::is_byte_aligned", "BitBuffer::put_fast"]),
     VU("V-pushdict", ["C05", "C13"], ["push_dict_out"]),
     VU("V-def-lz", ["C02", "C10"], ["LZOxide::write_code", "LZOxide::plant_flag", "LZOxide::consume_flag"]),
     VU("V-flushout", ["C02", "C14"], ["CallbackBuf::flush_output"]),
@@ -222,7 +222,7 @@ COMPOSITION_GAP_ENC = ("the three compressor loops (compress_normal / compress_f
 
 NOT_COVERED = {
     "C01": [COMPOSITION_GAP_ENC, COMPOSITION_GAP_DEC, "hence the round trip itself is not proved end to end; what is proved: every stored length/distance/literal re-decodes to itself through the real emission code against the RFC tables, level clamp, level 0 <=> stored route, fixed code == RFC"],
-    "C02": [COMPOSITION_GAP_ENC, "saved lazy match carried across an early return; callback (dyn FnMut) sink; decodability of the concatenated output (whole-history)"],
+    "C02": [COMPOSITION_GAP_ENC, "callback (dyn FnMut) sink; decodability of the concatenated output (whole-history); the lazy-match hand-over is proved for one token decision at a concrete window position only (K-normal-early)"],
     "C03": [COMPOSITION_GAP_DEC, "Huffman table construction (init_tree) for symbolic code-length sets: no tractable formulation found (DESIGN.md §3.1 note)"],
     "C04": [COMPOSITION_GAP_DEC, "init_tree over-subscription/incompleteness verdict for symbolic length sets", "'whenever decoding reports completion the consumed bytes form a valid stream' as a whole-run statement"],
     "C05": [COMPOSITION_GAP_DEC, "termination (no ranking function proved)"],
@@ -230,14 +230,14 @@ NOT_COVERED = {
     "C07": ["the relational statement itself (two schedules give equal results) is not mechanised; proved are the single-run facts it follows from: starved readers leave the unread-bit view and live registers unchanged, wrapper hand-off bookkeeping", COMPOSITION_GAP_DEC],
     "C08": [COMPOSITION_GAP_DEC, "union of per-arm write frames over a run; decompress_fast's 259-byte guard"],
     "C09": ["Adler-32 algorithm itself beyond the bounded check (dependency adler2)", COMPOSITION_GAP_ENC, COMPOSITION_GAP_DEC],
-    "C10": [COMPOSITION_GAP_ENC, "acceptance by an independent decoder end to end; dynamic-block header construction (start_dynamic_block, optimize_table dynamic); the compression-ratio clause (quantitative whole-run statement: not applicable to this family)"],
-    "C11": ["byte-level behaviour of compress_fast's match search beyond the modelled dictionary reads; find_match internals (its distance bound is the contract model's clause)"],
+    "C10": [COMPOSITION_GAP_ENC, "acceptance by an independent decoder end to end; dynamic-block header construction (start_dynamic_block, optimize_table dynamic) except enforce_max_code_size (K-huff, bounded); the compression-ratio clause (quantitative whole-run statement: not applicable to this family)"],
+    "C11": ["the matchers are exercised on bounded instances only: compress_fast on one planted repeat at two distances (K-fastcap), find_match on one concrete chain (K-findmatch), compress_normal's call site for one token decision (K-normal-early) and a 2-3 byte run (K-normalstep); all complete in the configuration"],
     "C12": [COMPOSITION_GAP_ENC, "prefix decodability at a flush point (needs the missing composition)"],
     "C13": ["delivered bytes are a prefix of the true plaintext (needs the engine)", "termination of the engine; M-decompress clauses are assumptions wherever the decoder units do not prove them"],
     "C14": ["progress inside the engine (M-compress progress clause is assumed)"],
-    "C17": ["mz_deflate / mz_deflateInit2 / mz_deflateReset extern wrappers (CBMC crashes on that harness), mz_compress2, mz_uncompress, tinfl_decompress*, tdefl_* and output_buffer_putter are not under contract", "buffers bounded to 8 bytes"],
+    "C17": ["mz_deflate / mz_deflateInit2 / mz_deflateReset extern wrappers (CBMC crashes on that harness), mz_compress2, mz_uncompress, the body of tdefl_compress_mem_to_output (behind a call-site contract) and the growing branch of output_buffer_putter beyond one realloc are not under contract", "buffers bounded to 8 bytes"],
     "C18": ["decoder fields other than state are not reset by init(); that they are dead at Start is shown arm by arm only for the registers (Start arm) and code_size_huffman (ReadTableSizes)", "MinReset: known finding D3", "'behaves exactly like a new object' follows from state equality + determinism of safe Rust (trusted)"],
-    "C19": ["equality of behaviour after Clone / serde round trip (derived code, generic Serializer: no contract within reach)", "the record's precondition num_bits < 8 rests on the assumed end-of-stream history invariant"],
+    "C19": ["equality of behaviour after Clone (derived code) and the Deserialize side of serde; the Serialize side is checked to visit every decoder field (K-serde)", "the record's precondition num_bits < 8 rests on the assumed end-of-stream history invariant"],
     "C16": ["checksum algorithms live in dependencies (adler2, simd-adler32, crc32fast); only bounded lengths are checked; SIMD build not analysed"],
 }
 
@@ -266,9 +266,9 @@ PROPERTY_META = {
         "Verus (iterator chains, closures) or Kani (symbolic-index writes into 64-85 KiB buffers exhaust memory), so no contract "
         "here can express or decide it; only the arithmetic of the formula itself could be proved, which decides nothing of the "
         "property (DESIGN.md §4 C15)")),
-    "C17": dict(text="C shim inflate path as function contracts over the real extern \"C\" functions with real pointers: exact accounting, declared ranges only, error codes for every misuse listed in the property", note=""),
+    "C17": dict(text="C shim inflate path (mz_inflate*, tinfl_*) and tdefl_* deflate path as function contracts over the real extern \"C\" functions with real pointers: exact accounting, declared ranges only, error codes for every misuse listed in the property", note=""),
     "C18": dict(text="field-by-field equality of a reset compressor / inflate wrapper with a fresh object from a symbolic pre-state; decoder register re-initialisation in the Start arm; one known finding (MinReset keeps the window)", note=""),
-    "C19": dict(text="block-boundary record <-> live decoder registers, stop reported after every non-final block incl. empty stored blocks, resume at ReadBlockHeader; Clone/serde equality is not a contract-level statement", note=""),
+    "C19": dict(text="block-boundary record <-> live decoder registers, stop reported after every non-final block incl. empty stored blocks, resume at ReadBlockHeader, the fast loop hands end-of-block to BlockDone; derived Serialize visits every field; Clone equality is not a contract-level statement", note=""),
     "C20": dict(not_applicable=True, na_reason=(
         "facts about program text and the trait solver (#![forbid(unsafe_code)], no_std builds, auto traits): no "
         "pre/postcondition expresses them and neither Verus nor Kani decides them; the compiler itself would, which is a "
